@@ -7,6 +7,42 @@ LIVE_MANAGERS = ["carbons2", "mam", "pubsub", "blocking", "upload", "extdisco", 
                  "location", "tune", "moved", "uploadrequest", "transfer"]
 
 
+def memcheck_part(V, tier):
+    """uninitialised reads are invisible to ASan/UBSan: a sample of the same workloads on an uninstrumented build under valgrind memcheck"""
+    import collections, c01
+    cb = vf.build_harness("codec", flavour="plain")
+    fb = vf.build_harness("fields", flavour="plain")
+    W = vf.NPROC
+    per = 25 if tier == "quick" else 2500
+    stats = collections.Counter()
+    jobs = [("codec", w) for w in range(W)] + [("fields", s) for s in range(1 if tier == "quick" else 6)]
+    nsm = c01.ns_map()
+
+    def run(job):
+        kind, k = job
+        if kind == "codec":
+            # other cases than the ASan run: the worker index is shifted
+            return job, vf.memcheck(cb, ["c02", codecdrv.SEEDS, vf.SEED, 100 + k, per], timeout=14000)
+        return job, vf.memcheck(fb, [], stdin=json.dumps({"n": 1, "seed": vf.SEED * 77 + k, "ns": nsm, "skip": 0}) + "\n", timeout=14000)
+    for (kind, k), (r, errors) in vf.pmap(run, jobs):
+        if r["timed_out"]:
+            V.inconc("memcheck %s worker %s timed out" % (kind, k))
+            continue
+        for ek, frame, block in errors:
+            V.violation("memcheck %s @ %s" % (ek, frame), "valgrind memcheck: %s while a %s handled a well-formed element / setter-built object" % (ek, "parser or serializer" if kind == "codec" else "codec"),
+                        {"workload": kind, "worker": k, "valgrind": block})
+        if r["rc"] not in (0, 99):
+            V.violation("memcheck abnormal-exit %s rc=%s" % (kind, r["rc"]), "the uninstrumented harness died under valgrind", {"stderr": r["err"][-3000:]})
+        if kind == "codec":
+            for o in vf.jsonl(r["out"]):
+                if o.get("summary"):
+                    stats["memcheck_parser_applications"] += int(o["applications"])
+                    stats["memcheck_mutated_elements"] += int(o["cases"])
+        else:
+            stats["memcheck_setter_field_states"] += sum(1 for o in vf.jsonl(r["out"]) if o.get("live"))
+    return dict(stats)
+
+
 def live_sessions(docs, batch):
     import wire
     steps = [wire.client(managers=LIVE_MANAGERS)] + wire.login_sasl(sm=False, roster=True) + [dict(op="wait_signal", name="connected")]
@@ -163,6 +199,7 @@ def main(tier, replay=None):
         if not sums and not crashes:
             raise vf.HarnessFailure("codec worker produced no summary")
     live = live_half(V, tier, binary)
+    mc = memcheck_part(V, tier)
     apps += live.get("stanzas_sent", 0)
     if not samples:
         samples.append({"note": "no violation; per-parser counters in 'parsers' = [admitted, parsed, fixpoint-confirmed]"})
@@ -171,8 +208,9 @@ def main(tier, replay=None):
            "rule": "seed documents lifted from the test-suite, 0-3 DOM mutations each (17 operators: delete/duplicate/reorder/move/re-namespace incl. hostile URIs/strip/empty/hostile numbers and strings/deep nesting/huge text/cross-breeding/rename/unknown children/many siblings/sibling from the same vocabulary), plus a systematic pass that gives every element of every seed document a sibling from its own namespace's vocabulary (1 quick / 6 thorough per element); "
                    "every registered parser applied to every element its own type check admits (parsers without a type check to all); distinct_nontrivial = applications whose output was re-parsed and confirmed a fixpoint",
            "mutated_elements": cases, "systematic_sibling_cases": sibc, "parsers": parsers, "mutation_operators": ops, "parsers_that_never_parsed": never, "samples": samples,
+           "memcheck_sample": dict(mc, rule="the codec workload (other cases than the ASan run) and the setter-built objects of C01 on an uninstrumented -O1 build under valgrind memcheck: any uninitialised-value use or invalid access is a violation"),
            "connected_client": dict(live, rule="mutated stanzas (same mutators; payload seeds wrapped into message/presence/iq of every type; from/to rewritten to own/server/contact/room addresses half of the time) sent by the scripted server to a logged-in "
                                               "QXmppClient with %d managers under ASan/UBSan, 20 per ping fence; a failed batch is re-run stanza by stanza in fresh sessions" % (len(LIVE_MANAGERS) + 4))}
-    floors = {"applications": apps > 1000, "parsers_reached": (len(never) == 0) if tier != "quick" else (len(never) <= 0.1 * len(parsers)), "all_operators_used": len(ops) == 17, "live_stanzas_survived": live.get("stanzas_survived", 0) >= 0.8 * max(1, live.get("stanzas_sent", 0))}
+    floors = {"applications": apps > 1000, "parsers_reached": (len(never) == 0) if tier != "quick" else (len(never) <= 0.1 * len(parsers)), "all_operators_used": len(ops) == 17, "memcheck_ran": mc.get("memcheck_parser_applications", 0) > 100 and mc.get("memcheck_setter_field_states", 0) > 100, "live_stanzas_survived": live.get("stanzas_survived", 0) >= 0.8 * max(1, live.get("stanzas_sent", 0))}
     V.finish(cov, "exploration", ["Qt's XML reader/writer and DOM are trusted (well-formedness is judged with them)", "nesting depth <= 2000 and text <= 1 MiB",
-                                  "uninitialised reads are outside ASan/UBSan's reach"], floors)
+                                  "uninitialised reads are covered only by the memcheck sample (quick: ~400 mutated elements + one pass over the setter-built objects)"], floors)
